@@ -392,7 +392,7 @@ def vo_fresh(rel_v):
 
 
 def judge(ctx, cases, full_header, full_checker, spec_header=None, spec_checker=None, model_v=None,
-          signature_of=None, bits=None, shard=200, prefix=None):
+          signature_of=None, bits=None, shard=200, prefix=None, found_elsewhere=False):
     """cases: list of dicts with keys 'json' (replayable description), 'coq' (term for the full
     checker), optionally 'spec' (term for the spec-only checker), 'nontrivial' (bool), 'key'.
     Returns summary dict.  Reports violations through ctx."""
@@ -430,7 +430,7 @@ def judge(ctx, cases, full_header, full_checker, spec_header=None, spec_checker=
             reported += 1
             if reported >= 3:
                 break
-    if model_mis and not spec_fail:
+    if model_mis and not spec_fail and not found_elsewhere:
         model_mis.sort(key=lambda ic: len(json.dumps(cases[ic[0]]["json"], default=str)))
         i, code = model_mis[0]
         ctx.violation({"kind": "model-implementation-correspondence-broken", "case": cases[i]["json"], "code": code,
